@@ -115,3 +115,15 @@ Theorem c10_total_queries_strict : forall e silent t,
   match analyze e silent t with Ok _ => True | Err k => allowed_err k = true end.
 Proof. exact c10_total_queries_partial. Qed.
 Print Assumptions c10_total_queries_strict.
+
+(** * The contract WITHOUT the ValueError disjunct, every statement type (Tree/TotalValue3.v): under [escape_free] and the
+    executable guard [nw_inner] (no SELECT .. INTO, no INSERT / UPDATE below the top-level write statement other than as the direct
+    child of a top-level WITH, no vertica swap function, at most one written target in an INSERT / CREATE) analysis ends in a result
+    or one of the library's own exceptions.  No tree with ValueError is known for the excluded shapes; they stay under
+    c10_total_on_all_trees_partial. *)
+From SV Require Import Tree.TotalValue3.
+Theorem c10_total_on_all_trees_strict : forall e silent t,
+  escape_free t = true -> nw_inner t = true ->
+  match analyze e silent t with Ok _ => True | Err k => allowed_err k = true end.
+Proof. exact TotalValue3.c10_total_on_all_trees_strict. Qed.
+Print Assumptions c10_total_on_all_trees_strict.
